@@ -22,6 +22,8 @@ VALUES += [['"a\\\nb;}"'], ['"a\\\r\nb;}"', 'x'], ["'p\\\r\n{q'"]]        # a ba
 VALUES += [['url(//cdn.x/y.png)', 'no-repeat'], ['image-set(url(//a.b/c) 1x)']]       # (two slashes inside parentheses are a protocol-relative URL, not a line comment)
 VALUES += [['a:b'], ['progid:DXImageTransform.Microsoft.gradient(startColorstr=#80000000)'], ['c', 'd:e', 'f'], ['1:2:3'], ['x', ':', 'y']]
 VALUES_WITH_COMMENT = [['x', '/* v */', 'y'], ['1px', '/* ; } */', 'solid'], ['f(a:/* ; } */b)'], ['(k:/* { */ v)', 'w']]
+# a Sass map written over several lines, with line comments after its entries (they may hold anything: `;`, braces, an unbalanced parenthesis)
+VALUES_WITH_COMMENT += [['(\n  sm: 576px, // phones; small {\n  md: 768px\n)'], ['(a: 1, // 1) first\n b: 2)'], ['f(x, // }\n y)', 'z']]
 SEMI_IN_PAREN = [['url(data:image/png;base64,aaa)'], ['url(data:x;y)', 'no-repeat'], ['f(a;b)']]
 COMMENTS = ['/* a:b; } */', '/* { */', '/**/', '/* x */', '/* ; */', '/*\n * multi\n */']
 # the line comments of SCSS / LESS / Stylus (each ends with its line break)
